@@ -408,3 +408,6 @@ def sample_view(sc, r):
 
 # round 7 summary for the evidence file
 RULE = RULE + "  Round 7: RFC 3986 sub-delims, ':' and '@' in paths; '/', '?', ':', '@', ';', ',', '+' inside queries - the requested resource is the URL's path and query as written."
+RULE = RULE + ("  'earlier_outcomes': the same process connected to the same target before (twice), when its addresses answered "
+               "differently (every 2-3 address pattern against its rotation and against only-the-last-accepts; 25 % of the seeded "
+               "multi-address scenarios): the judged connection still tries the list in order.")
